@@ -772,25 +772,37 @@ class H2Connection:
                     (max_open_streams, self.open_outbound_streams)
                 )
 
-        self.state_machine.process_input(ConnectionInputs.SEND_HEADERS)
-        stream = self._get_or_create_stream(
-            stream_id, AllowedStreamIDs(self.config.client_side)
-        )
-        frames = stream.send_headers(
-            headers, self.encoder, end_stream
-        )
-
-        # We may need to send priority information.
+        # We may need to send priority information. Check that we can before
+        # anything is encoded: a header block that has been through the HPACK
+        # encoder cannot be taken back.
         priority_present = (
             (priority_weight is not None) or
             (priority_depends_on is not None) or
             (priority_exclusive is not None)
         )
 
-        if priority_present:
-            if not self.config.client_side:
-                raise RFC1122Error("Servers SHOULD NOT prioritize streams.")
+        if priority_present and not self.config.client_side:
+            raise RFC1122Error("Servers SHOULD NOT prioritize streams.")
 
+        self.state_machine.process_input(ConnectionInputs.SEND_HEADERS)
+        stream = self._get_or_create_stream(
+            stream_id, AllowedStreamIDs(self.config.client_side)
+        )
+
+        if priority_present:
+            # This only validates the priority fields.
+            _add_frame_priority(
+                PriorityFrame(stream_id),
+                priority_weight,
+                priority_depends_on,
+                priority_exclusive
+            )
+
+        frames = stream.send_headers(
+            headers, self.encoder, end_stream
+        )
+
+        if priority_present:
             headers_frame = frames[0]
             headers_frame.flags.add('PRIORITY')
             frames[0] = _add_frame_priority(
